@@ -104,7 +104,8 @@ func GetPosition(ast MalType) *Position {
 		// throw or assert
 		return nil
 	default:
-		panic(fmt.Errorf("GetPosition(%T)", value))
+		// scalars (numbers, strings, keywords, booleans), functions, atoms… carry no position
+		return nil
 	}
 }
 
